@@ -208,16 +208,16 @@ fn generators(src: &mut Src) -> CaseResult {
     let rf = src.pick(&[".+1", "(., .)", ". * 2", "tostring", "error(\"g\")", ".[1:]", "(1, 2)", "(., empty)", "[.]"]).to_string();
     let up = src.pick(&[". >= 3", "type == \"number\" and . >= 2", "true", "(true, false)", "error(\"p\")", "empty", "(. >= 2, true)", ". != null"]).to_string();
     let (name, lhs, rhs): (&'static str, String, String) = match which {
-        0 => ("repeat-unfolds", format!("[limit({k}; repeat({rf}))]"), format!("[limit({k}; ({rf}), repeat({rf}))]")),
-        1 => ("recurse1-unfolds", format!("[limit({k}; recurse({f}))]"), format!("[limit({k}; ., (({f}) | recurse({f})))]")),
-        2 => ("recurse2-is-recurse-select", format!("[limit({k}; recurse({f}; {p}))]"), format!("[limit({k}; recurse(({f}) | select({p})))]")),
+        0 => ("repeat-unfolds", format!("limit({k}; repeat({rf}))"), format!("limit({k}; ({rf}), repeat({rf}))")),
+        1 => ("recurse1-unfolds", format!("limit({k}; recurse({f}))"), format!("limit({k}; ., (({f}) | recurse({f})))")),
+        2 => ("recurse2-is-recurse-select", format!("limit({k}; recurse({f}; {p}))"), format!("limit({k}; recurse(({f}) | select({p})))")),
         3 => ("recurse0-is-recurse-iter-is-dotdot", "[recurse] == [recurse(.[]?)] and [recurse] == [..]".to_string(), "true".to_string()),
-        4 => ("while-unfolds", format!("[limit({k}; while({p}; {f}))]"), format!("[limit({k}; if {p} then ., (({f}) | while({p}; {f})) else empty end)]")),
-        5 => ("until-unfolds", format!("[limit({k}; until({up}; if type == \"number\" then .+1 else 3 end))]"), format!("[limit({k}; if {up} then . else (if type == \"number\" then .+1 else 3 end) | until({up}; if type == \"number\" then .+1 else 3 end) end)]")),
-        6 => ("repeat-does-not-cache", format!("[limit({k}; repeat({rf}))]"), format!("[limit({k}; def r: ({rf}), r; r)]")),
+        4 => ("while-unfolds", format!("limit({k}; while({p}; {f}))"), format!("limit({k}; if {p} then ., (({f}) | while({p}; {f})) else empty end)")),
+        5 => ("until-unfolds", format!("limit({k}; until({up}; if type == \"number\" then .+1 else 3 end))"), format!("limit({k}; if {up} then . else (if type == \"number\" then .+1 else 3 end) | until({up}; if type == \"number\" then .+1 else 3 end) end)")),
+        6 => ("repeat-does-not-cache", format!("limit({k}; repeat({rf}))"), format!("limit({k}; def r: ({rf}), r; r)")),
         7 => ("dotdot-paths", "[paths] == [skip(1; path(..))] and [..] == [getpath(path(..))]".to_string(), "true".to_string()),
         8 => ("recurse-on-values", "[recurse] | length".to_string(), "[.. | 1] | length".to_string()),
-        9 => ("while-is-recurse-cut", format!("[limit({k}; while({p}; {f}))]"), format!("[limit({k}; def w: if {p} then ., (({f}) | w) else empty end; w)]")),
+        9 => ("while-is-recurse-cut", format!("limit({k}; while({p}; {f}))"), format!("limit({k}; def w: if {p} then ., (({f}) | w) else empty end; w)")),
         10 => ("empty-definition", "[empty, ({}[] as $x | .)]".to_string(), "[]".to_string()),
         _ => ("error0-is-error-dot", "try error catch .".to_string(), "try error(.) catch .".to_string()),
     };
@@ -237,12 +237,13 @@ fn ranges(src: &mut Src) -> CaseResult {
     let sample = src.sample;
     let (a, b, s) = (src.pick(RANGE_ARGS).to_string(), src.pick(RANGE_ARGS).to_string(), src.pick(RANGE_ARGS).to_string());
     let def = "def rng($from; $to; $by): $from | if $by > 0 then while(. < $to; . + $by) elif $by < 0 then while(. > $to; . + $by) else while(. != $to; . + $by) end;";
+    // (compared as streams, not collected: the outputs before a failing step are part of the equation)
     let (name, lhs, rhs): (&'static str, String, String) = match which {
-        0 => ("range3-is-while-definition", format!("[limit(20; range({a}; {b}; {s}))]"), format!("{def} [limit(20; rng({a}; {b}; {s}))]")),
-        1 => ("range2-is-range3-step-1", format!("[limit(20; range({a}; {b}))]"), format!("[limit(20; range({a}; {b}; 1))]")),
-        2 => ("range1-is-range2-from-0", format!("[limit(20; range({b}))]"), format!("[limit(20; range(0; {b}))]")),
-        3 => ("range3-arguments-are-cartesian", format!("[limit(30; range({a}; {b}; {s}))]"), format!("[limit(30; ({a}) as $a | ({b}) as $b | ({s}) as $s | range($a; $b; $s))]")),
-        _ => ("range3-is-while-definition-numeric", format!("[limit(20; range({}; {}; {}))]", src.range(-5, 5), src.range(-5, 9), src.pick(&["1", "2", "-1", "-2", "3", "0.5", "-0.5", "0"])), String::new()),
+        0 => ("range3-is-while-definition", format!("limit(20; range({a}; {b}; {s}))"), format!("{def} limit(20; rng({a}; {b}; {s}))")),
+        1 => ("range2-is-range3-step-1", format!("limit(20; range({a}; {b}))"), format!("limit(20; range({a}; {b}; 1))")),
+        2 => ("range1-is-range2-from-0", format!("limit(20; range({b}))"), format!("limit(20; range(0; {b}))")),
+        3 => ("range3-arguments-are-cartesian", format!("limit(30; range({a}; {b}; {s}))"), format!("limit(30; ({a}) as $a | ({b}) as $b | ({s}) as $s | range($a; $b; $s))")),
+        _ => ("range3-is-while-definition-numeric", format!("limit(20; range({}; {}; {}))", src.range(-5, 5), src.range(-5, 9), src.pick(&["1", "2", "-1", "-2", "3", "0.5", "-0.5", "0"])), String::new()),
     };
     let rhs = if rhs.is_empty() { format!("{def} {}", lhs.replacen("range(", "rng(", 1)) } else { rhs };
     let multi = [&a, &b, &s].iter().any(|x| x.contains(',') || *x == "empty");
